@@ -78,7 +78,7 @@ def place_str(pl):
 class Body:
     __slots__ = ("rec", "path", "crate", "kind", "file", "line", "blocks", "locals", "names",
                  "_succ", "_pred", "_dom", "_pdom", "_defs", "root", "self_ty", "trait",
-                 "derived", "expn", "argc", "_reach", "_borrowed", "_mutb")
+                 "derived", "expn", "argc", "_reach", "_borrowed", "_mutb", "inl")
 
     def __init__(self, rec, crate):
         self.rec = rec
@@ -99,6 +99,7 @@ class Body:
         self._succ = self._pred = self._dom = self._pdom = self._defs = self._reach = None
         self._borrowed = None
         self._mutb = None
+        self.inl = []
         self._normalise_checked_arith()
 
     def _normalise_checked_arith(self):
@@ -146,7 +147,10 @@ class Body:
                 ln = b["s"][stmt].get("ln", ln)
             else:
                 ln = b["t"].get("ln", ln)
-        return "%s:%d" % (self.file, ln)
+        f = self.file
+        if bb is not None and self.blocks[bb].get("file"):
+            f = self.blocks[bb]["file"]       # a block spliced in from another function (inline.py)
+        return "%s:%d" % (f, ln)
 
     # ---- CFG ----------------------------------------------------------
     def succ(self):
@@ -321,6 +325,33 @@ class Body:
                             d[mref[l]].append((bi, None, "mutarg", t))
             self._defs = d
         return self._defs
+
+    def reaching_defs(self, l, bb):
+        """the definitions of local `l` (entries of defs()[l]) that can reach the END of block `bb`: flow-sensitive
+        counterpart of defs(), exact on the pruned CFG (a later whole-local assignment kills an earlier one)"""
+        ds = self.defs().get(l, [])
+        full_blocks = {}
+        for d in ds:
+            if d[2] in ("assign", "call"):
+                full_blocks.setdefault(d[0], []).append(d)
+        if bb in full_blocks:
+            last = max(full_blocks[bb], key=lambda d: (10**9 if d[1] is None else d[1]))
+            return [last] + [d for d in ds if d[2] not in ("assign", "call")]
+        out = [d for d in ds if d[2] not in ("assign", "call")]
+        pred = self.pred()
+        live = self.reachable()
+        seen, todo = {bb}, [bb]
+        while todo:
+            x = todo.pop()
+            for p_ in pred[x]:
+                if p_ in seen or p_ not in live:
+                    continue
+                seen.add(p_)
+                if p_ in full_blocks:
+                    out.append(max(full_blocks[p_], key=lambda d: (10**9 if d[1] is None else d[1])))
+                    continue            # killed here: do not look further up
+                todo.append(p_)
+        return out
 
     def single_def(self, l):
         ds = self.defs().get(l, [])
